@@ -935,12 +935,20 @@ Section Model.
 
   Definition field_ann_ok (p : field * jfinfo) : bool :=
     name_plain (jf_name (snd p))
-    && (if jf_bit (snd p) then is_some (f_mask (fst p)) && is_true_type (f_ty (fst p)) else true).
+    && (if jf_bit (snd p) then is_some (f_mask (fst p)) && is_true_type (f_ty (fst p)) else true)
+    && (if is_nat_type (f_ty (fst p)) then is_nil (f_args (fst p)) else true).    (* # takes no nat arguments *)
 
   Definition variant_fields (vt : nat) : option (list field * bool) :=
     match nth_error js vt with
     | Some (TStruct _ fds, AStruct _ td _) => Some (fds, td)
     | _ => None
+    end.
+
+  (** the spelling [nm] of a variant is read back as variant [i] (and is not a legacy spelling) *)
+  Definition tag_reads_as (tl2 : bool) (vars : list nat) (vns : list jvname) (nm : bytes) (i vt : nat) : bool :=
+    match find_tag tl2 vars vns nm 0 with
+    | Some (i', vt', legacy) => Nat.eqb i' i && Nat.eqb vt' vt && negb legacy
+    | None => false
     end.
 
   Definition ann_ok (p : tydef * jann) : bool :=
@@ -966,10 +974,8 @@ Section Model.
               (* the name the writer emits for a variant is read back as that variant *)
               forallb (fun i => match nth_error vars i, nth_error vns i with
                                 | Some vt, Some vn =>
-                                    match find_tag tl2 vars vns (wname vn) 0 with
-                                    | Some (i', vt', legacy) => Nat.eqb i' i && Nat.eqb vt' vt && negb legacy
-                                    | None => false
-                                    end
+                                    tag_reads_as tl2 vars vns (wname vn) i vt
+                                    && (if tl2 then tag_reads_as tl2 vars vns (vn_var vn) i vt else true)
                                 | _, _ => false
                                 end) (seq 0 (length vars)))
         && (if is_enum then forallb (fun vt => match variant_fields vt with Some ([], _) => true | _ => false end) vars else true)
